@@ -524,7 +524,30 @@ def _in_plane(vec, hunit, what, idx, geom, tol=1e-9):
             "component %r, along-track %r); %s", idx, what, _fmt(vec), cross, dot, geom)
 
 
-def _check_exp_subpath(p, spec, idx, i, geom, near_vertical=False):
+def _root_slack(paths, specs, layer_of):
+    """Horizontal reach change of the whole chain when n sin(theta) moves by 8e-12 (the launch angle
+    is a root found to ~2e-12 rad): the closing sub-path is pinned to the receiver and absorbs it.
+    Large only when some sub-path grazes (reach ~ sqrt(n_top - beta))."""
+    tot = 0.0
+    for p, j in zip(paths, layer_of):
+        sp = specs[j]
+        if sp["cls"] == "UniformIce":
+            continue
+        f, t = _v(p.from_point), _v(p.to_point)
+        e = np.asarray(p.emitted_direction, dtype=float)
+        beta = _n_layer(sp, f[2]) * math.hypot(e[0], e[1])
+        Q = R.Quadrature(R.Profile(sp, uniform_below=R.z_uniform_of(sp)), epsrel=1e-10)
+        fn = Q.direct if p.direct else Q.indirect
+        n_hi = _n_layer(sp, max(f[2], t[2]))
+        q0 = fn(f[2], t[2], min(beta, n_hi))
+        for bb in (beta - 8e-12, min(beta + 8e-12, n_hi)):
+            qq = fn(f[2], t[2], bb)
+            if q0 is not None and qq is not None:
+                tot += abs(float(qq[0] - q0[0]))
+    return tot
+
+
+def _check_exp_subpath(p, spec, idx, i, geom, near_vertical=False, chain_slack=None):
     """One sub-path in an exponential layer against C01's quadrature oracle (O1), with the
     tolerances derived there from the tracer's two documented approximations.
     Returns (L_ref, T_ref) or None when the comparison is not decidable (grazing/ill-conditioned)."""
@@ -598,6 +621,8 @@ def _check_exp_subpath(p, spec, idx, i, geom, near_vertical=False):
                 tol_T += abs(float(qq[2] - q[2]))
         if cond > 0.01 * max(rho, 1.0):
             return None
+    if errs[0] > tol_r and chain_slack is not None:
+        tol_r += chain_slack()
     mark = ""
     if errs[0] > tol_r or errs[1] > tol_L or errs[2] > tol_T:
         cb = 4 * cancellation_bound(spec, f, t, beta, direct)
@@ -708,14 +733,18 @@ def check_chain(sol, idx, a, b, stack, lay, max_ref, geom):
         # horizontal progress is along the track (no sub-path runs backwards)
         dh = T_[i][:2] - F[i][:2]
         if hunit is not None and not near_vertical:
-            require(float(dh[0] * hunit[0] + dh[1] * hunit[1]) >= -1e-6
+            # (the launch angle is a root found to ~2e-12 rad: d rho / d theta = rho / (sin cos)
+            # turns that into metres for grazing rays, which a thin sub-path inherits in full)
+            back = 1e-6 + 8e-12 * float(np.hypot(*(T_[-1][:2] - F[0][:2]))) / max(abs(float(e[2])), 1e-12)
+            require(float(dh[0] * hunit[0] + dh[1] * hunit[1]) >= -back
                     and abs(float(dh[0] * hunit[1] - dh[1] * hunit[0])) <= 1e-6 + REL * scale,
                     "solution %d sub-path %d: horizontal displacement %r is not along the track from "
                     "source to receiver; %s", idx, i, dh.tolist(), geom)
         if sp["cls"] == "UniformIce":
             ref = _check_uniform_subpath(p, sp, idx, i, scale, geom)
         else:
-            ref = _check_exp_subpath(p, sp, idx, i, geom, near_vertical)
+            ref = _check_exp_subpath(p, sp, idx, i, geom, near_vertical,
+                                     chain_slack=lambda: _root_slack(paths, specs, layer_of))
         if not p.direct:
             n_indirect += 1
         L_sum += float(p.path_length)
